@@ -463,8 +463,11 @@ func (c *converter) syncIngressHTTP(source *annotations.Source, ing *networking.
 			if host.TLS.TLSHash == "" {
 				host.TLS.TLSFilename = tlsPath.Filename
 				host.TLS.TLSHash = tlsPath.SHA1Hash
-				host.TLS.TLSCommonName = tlsPath.Certificate.Subject.CommonName
-				host.TLS.TLSNotAfter = tlsPath.Certificate.NotAfter
+				if tlsPath.Certificate != nil {
+					// certificates referenced as file:// are not parsed
+					host.TLS.TLSCommonName = tlsPath.Certificate.Subject.CommonName
+					host.TLS.TLSNotAfter = tlsPath.Certificate.NotAfter
+				}
 			} else if host.TLS.TLSHash != tlsPath.SHA1Hash {
 				msg := fmt.Sprintf("TLS of host '%s' was already assigned", host.Hostname)
 				if tls.SecretName != "" {
@@ -569,16 +572,20 @@ func (c *converter) syncIngressTCP(source *annotations.Source, ing *networking.I
 		}
 		for _, tlsHost := range tlsHosts {
 			if _, found := tcpPort.TLS[tlsHost]; !found {
-				tcpPort.TLS[tlsHost] = &hatypes.TCPServiceTLSConfig{
+				tlsConfig := &hatypes.TCPServiceTLSConfig{
 					Hostname: tlsHost,
 					TLSConfig: hatypes.TLSConfig{
-						TLSFilename:   tlsPath.Filename,
-						TLSHash:       tlsPath.SHA1Hash,
-						TLSCommonName: tlsPath.Certificate.Subject.CommonName,
-						TLSNotAfter:   tlsPath.Certificate.NotAfter,
+						TLSFilename: tlsPath.Filename,
+						TLSHash:     tlsPath.SHA1Hash,
 						// tcp updater fills other tlsConfig fields, reading from annotation config
 					},
 				}
+				if tlsPath.Certificate != nil {
+					// certificates referenced as file:// are not parsed
+					tlsConfig.TLSCommonName = tlsPath.Certificate.Subject.CommonName
+					tlsConfig.TLSNotAfter = tlsPath.Certificate.NotAfter
+				}
+				tcpPort.TLS[tlsHost] = tlsConfig
 			} else {
 				msg := fmt.Sprintf("hostname on tcp service port :%d was already assigned", tcpServicePort)
 				if secretName != "" {
